@@ -41,7 +41,10 @@ def gen_case(rs, tier):
             di = hrng.randrange(len(designs))
         else:
             rng = W.stream(rs, "design%d" % i)
-            ast = gen.gen_cross_design(rng, sm_cfg(krng, tier), tier)
+            if hrng.random() < 0.4:
+                ast = gen.gen_template_design(rng, sm_cfg(krng, tier), tier, smgen_friendly=True)
+            else:
+                ast = gen.gen_cross_design(rng, sm_cfg(krng, tier), tier)
             if ast is None:
                 continue
             if hrng.random() < 0.15:
